@@ -217,7 +217,8 @@ impl System {
         self.load_version().await.with_error_context(|error| {
             format!("{COMPONENT} (error: {error}) - failed to load version")
         })?;
-        self.load_users(system_state.users.into_values().collect())
+        let current_user_id = system_state.current_user_id;
+        self.load_users(system_state.users.into_values().collect(), current_user_id)
             .await
             .with_error_context(|error| {
                 format!("{COMPONENT} (error: {error}) - failed to load users")
